@@ -26,10 +26,11 @@ class Partial:
 
 ALPHABET = ['app0', 'app1', 'app3', 'applist', 'iter2', 'iter0', 'trunc0', 'trunc1', 'truncm1', 'trunclen',
             'modecycle', 'reopen', 'ctx:app1+app3']
-EXTRA = ['ctx:app3+iter2+app0', 'appswapped', 'appswapped', 'iterfail_atom', 'iterfail_raise', 'iterfail_first', 'appbadrank', 'appbadatom', 'appother', 'itergen', 'truncmid', 'trunclen1', 'truncstr', 'truncbelow', 'truncfloat', 'md_set', 'md_pop',
+EXTRA = ['ctx:app3+iter2+app0', 'appswapped', 'appswapped', 'iterfromragged', 'iterfail_atom', 'iterfail_raise', 'iterfail_first', 'appbadrank', 'appbadatom', 'appother', 'itergen', 'truncmid', 'trunclen1', 'truncstr', 'truncbelow', 'truncfloat', 'md_set', 'md_pop',
          'copy', 'recreate', 'app1', 'app3', 'iter2']
 PATTERNS = {'two': [2, 1], 'withempty': [2, 0], 'onlyempty': [0], 'seven': [1, 0, 0, 4, 2, 0, 3], 'one': [3],
-            'five': [1, 2, 0, 1, 1], 'six': [1, 1, 1, 1, 0, 2]}
+            'five': [1, 2, 0, 1, 1], 'six': [1, 1, 1, 1, 0, 2],
+            'forty': [1 + (k % 3) for k in range(40)]}
 ATOMS = [(), (2,), (1, 3), (2, 1)]
 
 
@@ -51,6 +52,14 @@ def build(op, model, rng, dtype, atom):
         od = gens.other_dtype(rng, dtype)
         x = gens.relayout(gens.safe_source(rng, od, dtype, (3,) + atom), rng.choice(['F', 'strided', 'C']))
         return model + [np.asarray(x).astype(dtype)], lambda D, ra, p: (ra.append(x), ra)[1]
+    if op == 'iterfromragged':     # the iterable handed to iterappend is itself a RaggedArray object
+        items = [item(rng, dtype, atom, k) for k in (2, 0, 1)]
+
+        def do(D, ra, p):
+            src = D.asraggedarray(p.parent / (p.name + '_src'), [x.copy() for x in items], dtype=dtype, overwrite=True)
+            ra.iterappend(src)
+            return ra
+        return model + items, do
     if op == 'appswapped':      # same numeric type as the array, opposite byte order
         x = item(rng, dtype, atom, 2)
         sw = x.astype(x.dtype.newbyteorder('S'))
@@ -219,6 +228,17 @@ def check_model(res, tag, ra, model, dtype, atom):
             if not bits_equal(np.asarray(ra[np64]), model[0]):
                 res.fail(f'model:{tag}-npint-index', 'ra[np.int64(0)] differs from model[0]')
                 return False
+            # NumPy integer scalars of narrow types are legitimate indices too (k must not be used in arithmetic that wraps)
+            for T in (np.uint8, np.int8, np.uint16):
+                for k in sorted({0, n - 1, min(n - 1, 17), min(n - 1, 33)}):
+                    try:
+                        got = np.asarray(ra[T(k)])
+                    except Exception as e:
+                        res.fail(f'model:{tag}-npint-index-raised:{T.__name__}:{type(e).__name__}', f'ra[np.{T.__name__}({k})] with len {n} raised {e!r}')
+                        return False
+                    if not bits_equal(got, model[k]):
+                        res.fail(f'model:{tag}-npint-index:{T.__name__}', f'ra[np.{T.__name__}({k})] differs from model[{k}]')
+                        return False
         for (s, e, st) in ITERGRID:
             sv = {'n': n, 'n-1': n - 1}.get(s, s)
             ev = {'n': n, 'n+1': n + 1}.get(e, e)
@@ -497,7 +517,7 @@ def history_cases(pid, tier, seed, nlong_quick, nlong_thorough, L_quick=2, L_tho
     L = L_quick if tier == 'quick' else L_thorough
     idx = 0
     starts = [('as', 'two', ()), ('as', 'withempty', ()), ('as', 'onlyempty', (2,)), ('as', 'seven', (1, 3)),
-              ('as', 'two', (2, 1)), ('as', 'five', ()), ('as', 'six', (2,))]
+              ('as', 'two', (2, 1)), ('as', 'five', ()), ('as', 'six', (2,)), ('as', 'forty', ())]
     for length in range(1, L + 1):
         for kind, pat, atom in starts:
             for ops in itertools.product(ALPHABET, repeat=length):
